@@ -27,6 +27,19 @@ and SystemExit; handlers may name them or BaseException.  The synchronous
 reference treats them like any other exception.  Every call into the code under
 test sits in an `Escape` block that turns an exception of ANY type escaping from
 it into a violation (a leaked SystemExit must not end the worker process).
+
+Who cancels, and when (round 6): besides the scheduler cancelling between two steps, the returned Deferred is cancelled
+  * by application code running INSIDE the program ("app" leaves of the tree): a nested function, resumed beneath the
+    suspended top-level function, cancels the top-level Deferred and then goes on - to its end or to its next await.  The
+    top-level function waits (on the nested function's Deferred) at that moment, so the statement applies: it observes the
+    nested function's outcome and the returned Deferred fires once, at the end;
+  * from inside the last callback of the awaited Deferred, i.e. while that Deferred is already firing: cancel() reaches it
+    (and nothing else) and the function observes the outcome it already has.
+The caller may also pause() the returned Deferred for a stretch: a result that arrives meanwhile is delivered at unpause().
+Two further families are gated by module constants: cancelling WHILE the returned Deferred is paused
+(CANCEL_WHILE_RETURNED_PAUSED_P, a small share of the runs: known finding, not repaired, listed in known_findings.json; every violation of such a run
+is reported under the clause `cancel-while-returned-paused` of its own) and awaited Deferreds whose canceller raises
+(RAISING_CANCELLER_P; the defect this family found is repaired in /repo, 99d1188).
 """
 from twisted.internet import defer
 from twisted.python.failure import Failure
@@ -52,17 +65,49 @@ RULE = ("run = one random program tree (<=40 nodes, function nesting <=3, mixed 
         "exception types of raise nodes, Deferred failures, canceller failures and handlers include (weight knob, off in 1/3 of the runs) BaseException "
         "subclasses outside Exception: a harness-defined Stop, KeyboardInterrupt, SystemExit (handlers also `except BaseException`); "
         "while the program is suspended the tape fires the awaited Deferred, fires it from inside the last callback of the Deferred the program awaits next, "
-        "fires another pool Deferred early, or cancels the returned Deferred; "
+        "fires another pool Deferred early, cancels the returned Deferred, fires the awaited Deferred with cancel() of the returned Deferred issued "
+        "from inside its last callback, or pauses the returned Deferred (unpaused a few steps later, at the latest when the function has ended); "
+        "'app' leaves of the program (weight knob 0/2/4) are application code inside the program: when one runs in a nested function that was "
+        "resumed beneath the suspended top-level function, it cancels the returned Deferred from there with p=0.4; "
         "non-trivial = the program suspended at least once AND (a cancellation hit a suspension, or an exception was observed at an await, "
         "or a nested function was called)")
 ASSUMPTIONS = ["each Deferred is awaited at most once (the k-th executed await uses pool Deferred k)",
-               "cancellers act only on their own Deferred and do not raise",
+               "cancellers act only on their own Deferred; in a RAISING_CANCELLER_P share of the runs a canceller may raise and leave its Deferred as "
+               "it was: the function then goes on waiting and later observes the Deferred's natural outcome (no verdict on whether what it raised "
+               "comes out of cancel(); the defect found by this family is repaired in /repo, 99d1188)",
+               "cancel() while the caller has the returned Deferred paused is drawn only in a CANCEL_WHILE_RETURNED_PAUSED_P share of the runs "
+               "(known finding of the unchanged tree, not repaired): from the first such cancel() on, whatever the run reports carries the clause "
+               "`cancel-while-returned-paused` with the original clause and witness as witness, so the listed signature prefix "
+               "C05:cancel-while-returned-paused:* cannot match a violation of any other run; pausing as such is part of the workload everywhere",
+               "a cancel() issued from inside a running nested function is only drawn while the top-level function waits (never during the "
+               "synchronous start, never once the top-level function has been resumed in the current step); no verdict on the cancel() calls "
+               "that reach Deferreds the running nested function awaited earlier (they have fired: no effect), nor on a cancel() issued by "
+               "application code while another cancel() of the same Deferred is still on the stack",
+               "a Deferred is never awaited a second time: the statement gives each Deferred one outcome, and what a second `yield d` / "
+               "`await d` observes is not defined by it (the unchanged tree gives None after a `yield` or a suspended `await`, the value "
+               "again after an `await` that did not suspend)",
                "KeyboardInterrupt / SystemExit raised by the function or carried by an awaited Deferred's failure are outcomes of the function like any "
                "other exception (the statement says 'uncaught exception' without restriction, and the unchanged code has a single `except BaseException`); "
                "GeneratorExit and StopIteration are never used as program exceptions",
                "in coroutine form 'await plain value' is written `await succeed(value)` (a coroutine cannot await a non-awaitable)"]
 
 MAX_POOL = 10
+
+# Share of the runs in which the returned Deferred may be cancelled WHILE ITS CALLER HAS IT PAUSED (pause() ... unpause()).  On the
+# unchanged tree the cancellation is carried out by an errback of the returned Deferred itself, which a paused Deferred does not run:
+# the awaited Deferred is not cancelled, and if the function ends before unpause() its outcome is lost (AlreadyCalledError inside
+# _inlineCallbacks, the returned Deferred never fires) - KNOWN FINDING, not repaired (see MUTANTS; known_findings.json lists the signature
+# prefix C05:cancel-while-returned-paused:*).  A small share keeps the check reaching it; in such a run every violation from the first
+# cancel-while-paused on is reported under the clause `cancel-while-returned-paused` (class Verdict).  Pausing the returned Deferred as
+# such (results arriving meanwhile are delivered at unpause()) is exercised in all runs.
+CANCEL_WHILE_RETURNED_PAUSED_P = 0.03
+
+# Share of the runs in which awaited Deferreds may have a canceller that RAISES (and leaves its Deferred as it was).  On the tree as
+# first examined what it raised became, at once, the result of the returned Deferred although the function went on waiting, and the
+# function's eventual outcome went to a Deferred nobody holds - genuine defect found by this family, REPAIRED in /repo 99d1188 ("fix: an
+# inlineCallbacks function keeps waiting when the canceller of the Deferred it awaits raises"); see MUTANTS.  The precondition is let
+# into this share of the runs; 0 is only for dev-time comparison.
+RAISING_CANCELLER_P = 0.4
 
 
 class E1(Exception):
@@ -110,7 +155,24 @@ def program_exc(e):
 
 def _ours(e):
     # every exception the scenario creates carries a tag as first argument; a watchdog of the runner or a real Ctrl-C does not
-    return bool(e.args) and e.args[0] in ("p", "e", "ce")
+    return bool(e.args) and e.args[0] in ("p", "e", "ce", "cx")
+
+
+class Verdict:
+    """What run() and its helpers report violations through (same call as sim.check).  Once `family` is set - a cancel() has
+    arrived while the caller had the returned Deferred paused: the known finding - every violation is reported under that
+    clause, with the original clause and witness as its witness."""
+
+    def __init__(self, sim):
+        self.sim = sim
+        self.family = None
+
+    def check(self, clause, cond, witness="", detail=""):
+        if cond:
+            return
+        if self.family is not None:
+            clause, witness = self.family, "%s:%s" % (clause, witness) if witness else clause
+        self.sim.check(clause, False, witness, detail)
 
 
 class Escape:
@@ -119,8 +181,9 @@ class Escape:
     gone into the returned Deferred - is the violation `clause` and the run ends normally (sim.guard lets those pass, and a
     leaked SystemExit would silently end the worker process)."""
 
-    def __init__(self, sim, clause, witness):
-        self.sim, self.clause, self.witness = sim, clause, witness
+    def __init__(self, sim, clause, witness, passes=()):
+        # passes: tags of scenario exceptions on which there is no verdict here (they are swallowed)
+        self.sim, self.clause, self.witness, self.passes = sim, clause, witness, passes
 
     def __enter__(self):
         return self
@@ -128,6 +191,8 @@ class Escape:
     def __exit__(self, et, ev, tb):
         if et is None or issubclass(et, (Violation, StepLimit)):
             return False
+        if self.passes and _ours(ev) and ev.args[0] in self.passes:
+            return True
         if not issubclass(et, Exception) and not _ours(ev):
             return False            # the runner's watchdogs
         self.sim.check(self.clause, False, "%s:%s" % (self.witness, et.__name__),
@@ -143,7 +208,7 @@ def gen_tree(sim, st, depth, fdepth):
     st["id"] += 1
     nid = st["id"]
     deep = depth >= 4 or st["nodes"] > 40
-    kinds = [("await", 8), ("value", 1), ("return", 1), ("raise", 2)]
+    kinds = [("await", 8), ("value", 1), ("return", 1), ("raise", 2), ("app", st.get("app_w", 0))]
     if not deep:
         kinds += [("seq", 6), ("try", 5), ("loop", 2), ("call", 3 if fdepth < 2 else 0)]
     if depth == 0:
@@ -153,6 +218,8 @@ def gen_tree(sim, st, depth, fdepth):
         return ("await", nid)
     if k == "value":
         return ("value", nid)
+    if k == "app":
+        return ("app", nid)
     if k == "return":
         return ("return", nid)
     if k == "raise":
@@ -178,7 +245,7 @@ def gen_tree(sim, st, depth, fdepth):
 
 def show(node):
     k = node[0]
-    if k in ("await", "value", "return"):
+    if k in ("await", "value", "return", "app"):
         return "%s#%d" % (k, node[1])
     if k == "raise":
         return "raise#%d(%s)" % (node[1], node[2])
@@ -248,6 +315,8 @@ class Interp:
         elif k == "value":
             v = yield ("plain", node[1])
             w.log(("value", v))
+        elif k == "app":
+            w.app(node[1])
         elif k == "return":
             self._return(node)
         elif k == "raise":
@@ -315,6 +384,8 @@ class Interp:
         elif k == "value":
             v = await defer.succeed(("plain", node[1]))
             w.log(("value", v))
+        elif k == "app":
+            w.app(node[1])
         elif k == "return":
             self._return(node)
         elif k == "raise":
@@ -332,6 +403,7 @@ class Interp:
                 if node[2] == "gen":
                     r = await self.gfn(node[4])
                 elif node[3] == "raw":
+                    w.inline_next = True                # no driver of its own: it runs as part of the awaiting coroutine
                     r = await self.cfn(node[4])         # native coroutine-to-coroutine await
                 elif node[3] == "ensure":
                     r = await defer.ensureDeferred(self.cfn(node[4]))
@@ -381,6 +453,8 @@ class Interp:
             w.end_await(idx, ("got", v))
         elif k == "value":
             w.log(("value", ("plain", node[1])))
+        elif k == "app":
+            w.app(node[1])
         elif k == "return":
             self._return(node)
         elif k == "raise":
@@ -425,16 +499,32 @@ class World:
         self.awaiting = None
         self.active = 0        # functions of the program entered and not yet left
         self.entered = 0
+        # one entry per function entered and not yet left: True = it has a driver (and a returned Deferred) of its own, False = a
+        # coroutine awaited natively by another coroutine (it runs as part of its caller)
+        self.frames = []
+        self.inline_next = False
+        self.low = 0           # smallest number of drivers since the harness last reset it (see RealWorld.app)
 
     def log(self, entry):
         self.trace.append(entry)
 
+    def drivers(self):
+        return sum(self.frames)
+
     def enter(self):
         self.active += 1
         self.entered += 1
+        self.frames.append(not self.inline_next)
+        self.inline_next = False
 
     def leave(self):
         self.active -= 1
+        self.frames.pop()
+        self.low = min(self.low, self.drivers())
+
+    def app(self, nid):
+        """A piece of application code inside the program (no effect on the program itself)."""
+        self.trace.append(("app", nid))
 
     def ended(self):
         """The top-level function has run to its end (returned or let an exception out)."""
@@ -457,10 +547,17 @@ class RealWorld(World):
         World.__init__(self)
         self.sim, self.pool, self.fired = sim, pool, fired
 
+        self.on_app = None
+
     def awaitable(self, idx):
         if idx < len(self.pool):
             return self.pool[idx]
         return defer.succeed(("x", idx))
+
+    def app(self, nid):
+        World.app(self, nid)
+        if self.on_app is not None:
+            self.on_app(nid)
 
     def end_await(self, idx, what):
         if idx < len(self.pool):
@@ -494,6 +591,7 @@ def outcome_of(call):
 
 
 def run(sim):
+    verdict = Verdict(sim)
     npool = sim.draw_int(1, MAX_POOL, "npool")
     top_kind = sim.draw_choice(["gen", "coro"], "top")
     cancel_w = sim.draw_choice([0, 2, 6], "cancel_weight")
@@ -502,12 +600,20 @@ def run(sim):
     # weight of the exception types outside the Exception hierarchy (a harness-defined BaseException subclass, KeyboardInterrupt,
     # SystemExit) among the program's raise nodes / handler types and among the failures of the awaited Deferreds; 0 = none
     bare_w = sim.draw_choice([0, 1, 3], "bare_exception_weight")
+    # weight of "application code" leaves in the program: places where code running INSIDE the program calls back into the harness,
+    # which may then cancel the returned Deferred from there (only while the top-level function really waits, see on_app)
+    app_w = sim.draw_choice([0, 2, 4], "app_node_weight")
+    inside_w = sim.draw_choice([0, 3], "cancel_inside_weight")
+    # the caller pauses the returned Deferred for a stretch of the run (pause() ... unpause(), both public)
+    pause_w = sim.draw_choice([0, 0, 2], "pause_returned_weight")
+    cancel_paused_ok = sim.draw_bool(CANCEL_WHILE_RETURNED_PAUSED_P, "cancel_while_returned_paused")
+    raise_w = 2 if sim.draw_bool(RAISING_CANCELLER_P, "raising_cancellers") else 0
     plan = []
     for k in range(npool):
         out = sim.draw_weighted([("ok", 10), ("E1", 4), ("E2", 2)] + [(t, bare_w) for t in BARE], "outcome")
-        canc = sim.draw_weighted([("none", 4), ("noop", 2), ("succ", 2), ("fail", 2)], "canceller")
-        # what a failing canceller fails its Deferred with
-        cexc = sim.draw_weighted([("E2", 6)] + [(t, bare_w) for t in BARE], "canceller_exc") if canc == "fail" else "E2"
+        canc = sim.draw_weighted([("none", 4), ("noop", 2), ("succ", 2), ("fail", 2), ("raise", raise_w)], "canceller")
+        # what a failing canceller fails its Deferred with / what a raising canceller raises
+        cexc = sim.draw_weighted([("E2", 6)] + [(t, bare_w) for t in BARE], "canceller_exc") if canc in ("fail", "raise") else "E2"
         pre = sim.draw_bool(0.3, "prefire")
         # how the Deferred looks to the function that awaits it before it has an outcome: plain = never called back;
         # chained = already called back, but one of its callbacks returned a Deferred that has not fired (`called` is true,
@@ -516,9 +622,10 @@ def run(sim):
         shape = sim.draw_weighted([("plain", 6), ("chained", 2), ("paused", 1)], "shape") if shapes_on else "plain"
         xform = shapes_on and sim.draw_bool(0.3, "xform")
         plan.append((out, canc, pre, shape, xform, cexc))
-    st = {"nodes": 0, "id": 0, "bare_w": bare_w}
+    st = {"nodes": 0, "id": 0, "bare_w": bare_w, "app_w": app_w}
     tree = gen_tree(sim, st, 0, 0)
     sim.config = {"npool": npool, "top": top_kind, "cancel_w": cancel_w, "early_w": early_w, "bare_w": bare_w,
+                  "app_w": app_w, "inside_w": inside_w, "pause_w": pause_w, "cancel_paused_ok": cancel_paused_ok, "raise_w": raise_w,
                   "plan": [list(p) for p in plan], "program": show(tree)}
     sim.event("program", top_kind, show(tree))
 
@@ -553,8 +660,13 @@ def run(sim):
 
         def canceller(d):
             canceller_calls[k] += 1
-            fired.add(k)
             sim.event("canceller", k, c)
+            if c == "raise":
+                # a canceller that fails to cancel: it raises and leaves its Deferred as it was (Deferred.cancel() passes the
+                # exception on to its caller); the operation goes on and ends with its natural outcome
+                sim.fault("canceller_raised")
+                raise EXC[plan[k][5]]("cx", k)
+            fired.add(k)
             kind, payload = after_cancel(k)
             if c == "succ":
                 d.callback(("cv", k))
@@ -612,7 +724,7 @@ def run(sim):
         if plan[k][2]:
             fire(k)
 
-    world = RealWorld(sim, pool, fired)
+    world = RealWorld(verdict, pool, fired)
     interp = Interp(world)
     results = []
 
@@ -621,23 +733,71 @@ def run(sim):
         sim.event("result", "err:" + res.type.__name__ if isinstance(res, Failure) else "ok")
         return None
 
-    with Escape(sim, "start-raised", top_kind):
+    stats = {"suspensions": 0, "cancels": 0}
+    live = {"top": None, "paused": False}
+    unattributed = [0] * npool     # cancel() calls the pool Deferreds received during a cancel-from-inside (no verdict on those)
+
+    def calls(j):
+        return pool[j].cancel_calls - unattributed[j]
+
+    def cancel_arrives():
+        if live["paused"]:
+            # the known finding's precondition: whatever this run reports from here on belongs to that family
+            sim.fault("cancel_while_returned_deferred_paused")
+            verdict.family = "cancel-while-returned-paused"
+
+    def on_app(nid):
+        """Application code running inside the program.  It may cancel the returned Deferred from there - but only while the
+        top-level function WAITS (the statement's precondition): the harness is past the start, and ever since it last touched
+        anything a nested function with a driver of its own has been running beneath the suspended top-level function (the
+        top-level function has not been resumed in between)."""
+        top = live["top"]
+        if top is None or results or world.low < 2 or world.drivers() < 2:
+            return
+        if live["paused"] and not cancel_paused_ok:
+            return
+        if not sim.draw_bool(0.4, "cancel_from_inside"):
+            return
+        stats["cancels"] += 1
+        sim.fault("cancel_from_inside_running_nested_function")
+        cancel_arrives()
+        sim.event("cancel-from-inside", nid)
+        # the awaited Deferred is the nested function's: its outcome is that function's outcome, and the nested function itself
+        # is running, not waiting - so nothing changes for the program: no verdict here beyond "cancel() returns", the rest is
+        # decided by the comparison with the synchronous reference and by the returned Deferred firing at the function's end
+        before = [d.cancel_calls for d in pool]
+        with Escape(verdict, "cancel-raised", top_kind + "+from-inside", passes=("cx",)):
+            top.cancel()
+        for j in range(npool):
+            unattributed[j] += pool[j].cancel_calls - before[j]
+
+    with Escape(verdict, "start-raised", top_kind):
         if top_kind == "gen":
             top = interp.gfn(tree)
         else:
             top = defer.ensureDeferred(interp.cfn(tree))
-    sim.check("returns-deferred", isinstance(top, defer.Deferred), top_kind, "got %r" % (type(top).__name__,))
+    verdict.check("returns-deferred", isinstance(top, defer.Deferred), top_kind, "got %r" % (type(top).__name__,))
     top.addBoth(on_result)
+    live["top"] = top
+    world.on_app = on_app
 
-    stats = {"suspensions": 0, "cancels": 0}
     while not results:
         sim.step(600)
+        if live["paused"] and (world.ended() or sim.draw_bool(0.35, "unpause_returned")):
+            # callbacks of the returned Deferred run again; a result that arrived meanwhile is delivered now
+            sim.event("unpause-returned")
+            live["paused"] = False
+            with Escape(verdict, "unpause-raised", top_kind):
+                top.unpause()
+            if world.ended():
+                sim.probe("function_ended_while_returned_deferred_paused")
+            continue
         k = world.awaiting
         # the function's end (return or uncaught exception of any type) is what fires the returned Deferred
-        sim.check("fires-when-function-ends", not world.ended(), top_kind,
+        verdict.check("fires-when-function-ends", not world.ended(), top_kind,
                   lambda: "the function has run to its end but the returned Deferred has not fired; log tail %r" % (world.trace[-3:],))
         # the function has not finished, so it must be waiting on an unfired pool Deferred
-        sim.check("suspended-on-unfired", k is not None and k < npool and k not in fired, top_kind,
+        verdict.check("suspended-on-unfired", k is not None and k < npool and k not in fired, top_kind,
                   lambda: "returned Deferred unfired, program awaiting %r, fired=%r; log tail %r" % (k, sorted(fired), world.trace[-3:]))
         stats["suspensions"] += 1
         others = [j for j in range(npool) if j not in fired and j != k]
@@ -645,59 +805,110 @@ def run(sim):
         can_cancel = plan[k][3] != "paused"
         # the awaited Deferred is fired from inside the last callback of the Deferred the function will await next
         reentrant_ok = k + 1 < npool and (k + 1) not in fired and plan[k + 1][4] and plan[k + 1][0] == "ok"
-        op = sim.draw_weighted([("fire", 6), ("early", early_w if others else 0), ("cancel", cancel_w if can_cancel else 0),
-                                ("fire_inside_next", 3 if reentrant_ok else 0)], "op")
+        may_cancel = can_cancel and (cancel_paused_ok or not live["paused"])
+        # cancel() of the returned Deferred arrives while the awaited Deferred is already firing: from inside its last callback
+        inside_ok = may_cancel and plan[k][4]
+        op = sim.draw_weighted([("fire", 6), ("early", early_w if others else 0), ("cancel", cancel_w if may_cancel else 0),
+                                ("fire_inside_next", 3 if reentrant_ok else 0), ("cancel_inside_fire", inside_w if inside_ok else 0),
+                                ("pause", 0 if live["paused"] else pause_w)], "op")
         mark = len(world.trace)
+        world.low = world.drivers()
+        if op == "pause":
+            sim.fault("returned_deferred_paused_by_caller")
+            sim.event("pause-returned")
+            live["paused"] = True
+            with Escape(verdict, "pause-raised", top_kind):
+                top.pause()
+            continue
+        if op == "cancel_inside_fire":
+            cc = [calls(j) for j in range(npool)]
+            sim.fault("cancel_while_awaited_is_firing")
+            cancel_arrives()
+            sim.event("cancel-inside-fire", k)
+            stats["cancels"] += 1
+
+            def inside_cancel():
+                with Escape(verdict, "cancel-raised", top_kind + "+awaited-firing"):
+                    top.cancel()
+            hooks[k] = inside_cancel
+            with Escape(verdict, "fire-raised", "awaited"):
+                fire(k)
+            # the awaited Deferred already has its outcome: that (not a cancellation) is what the function observes
+            wrong = [j for j in range(npool) if j != k and calls(j) != cc[j]]
+            verdict.check("cancels-only-awaited", not wrong, top_kind + "+awaited-firing",
+                      lambda: "cancel while #%d was firing also cancelled %r" % (k, wrong))
+            verdict.check("cancels-awaited", hooks.get(k) is None and calls(k) == cc[k] + 1, top_kind + "+awaited-firing",
+                      lambda: "cancel while #%d was firing: that Deferred received %d cancel() calls" % (k, calls(k) - cc[k]))
+            verdict.check("resumes-on-fire", len(world.trace) > mark and world.trace[mark][:2] == ("resumed", k), top_kind,
+                      lambda: "await #%d fired (cancel arrived inside its callback) but the program did not observe it; log tail %r"
+                      % (k, world.trace[-3:]))
+            sim.state((top_kind, min(world.nawaits, 12), len(fired), op))
+            continue
         if op == "fire_inside_next":
             sim.probe("resumed_inside_callback_of_next_awaited")
             sim.event("fire-inside-callback-of", k + 1)
 
             def inside(k=k):
-                with Escape(sim, "fire-raised", "awaited-from-inside-callback"):
+                with Escape(verdict, "fire-raised", "awaited-from-inside-callback"):
                     fire(k)
             hooks[k + 1] = inside
-            with Escape(sim, "fire-raised", "next"):
+            with Escape(verdict, "fire-raised", "next"):
                 fire(k + 1)
-            sim.check("resumes-on-fire", len(world.trace) > mark and world.trace[mark][:2] == ("resumed", k), top_kind,
+            verdict.check("resumes-on-fire", len(world.trace) > mark and world.trace[mark][:2] == ("resumed", k), top_kind,
                       lambda: "await #%d fired (from inside a callback) but the program did not observe it; log tail %r" % (k, world.trace[-3:]))
         elif op == "fire":
-            with Escape(sim, "fire-raised", "awaited"):
+            with Escape(verdict, "fire-raised", "awaited"):
                 fire(k)
-            sim.check("resumes-on-fire", len(world.trace) > mark and world.trace[mark][:2] == ("resumed", k), top_kind,
+            verdict.check("resumes-on-fire", len(world.trace) > mark and world.trace[mark][:2] == ("resumed", k), top_kind,
                       lambda: "await #%d fired but the program did not observe it; log tail %r" % (k, world.trace[-3:]))
         elif op == "early":
             j = sim.draw_choice(others, "which")
             sim.probe("fired_before_awaited")
             if plan[j][3] != "paused" and sim.draw_bool(0.25, "early_by_cancel"):
                 # the owner of d_j cancels it before the program gets to it: its outcome is the canceller's
-                cancelled[j] = True
-                fired.add(j)
+                # (a canceller that raises leaves d_j as it was)
+                if plan[j][1] != "raise":
+                    cancelled[j] = True
+                    fired.add(j)
                 sim.event("cancel-early", j, plan[j][1])
-                with Escape(sim, "fire-raised", "other"):
+                with Escape(verdict, "fire-raised", "other", passes=("cx",)):
                     pool[j].cancel()
             else:
-                with Escape(sim, "fire-raised", "other"):
+                with Escape(verdict, "fire-raised", "other"):
                     fire(j)
-            sim.check("no-spurious-resume", len(world.trace) == mark, top_kind,
+            verdict.check("no-spurious-resume", len(world.trace) == mark, top_kind,
                       lambda: "firing un-awaited #%d made the program advance: %r" % (j, world.trace[mark:mark + 3]))
         else:
-            cc = [d.cancel_calls for d in pool]
-            cancelled[k] = True
+            cc = [calls(j) for j in range(npool)]
+            refused = plan[k][1] == "raise"     # the canceller raises: the awaited Deferred stays as it was, the function goes on waiting
+            wit = top_kind + ("+canceller-raises" if refused else "")
+            if not refused:
+                cancelled[k] = True
             stats["cancels"] += 1
             sim.fault("cancel_at_suspension")
+            cancel_arrives()
             sim.event("cancel", k, plan[k][1])
             if plan[k][1] in ("none", "noop"):
                 fired.add(k)   # Deferred.cancel() itself fails it with CancelledError
-            with Escape(sim, "cancel-raised", top_kind):
+            # no verdict on whether what a raising canceller raises comes out of cancel() (it does for a plain Deferred)
+            with Escape(verdict, "cancel-raised", top_kind, passes=("cx",)):
                 top.cancel()
-            wrong = [j for j in range(npool) if j != k and pool[j].cancel_calls != cc[j]]
-            sim.check("cancels-only-awaited", not wrong, top_kind,
+            wrong = [j for j in range(npool) if j != k and calls(j) != cc[j]]
+            verdict.check("cancels-only-awaited", not wrong, wit,
                       lambda: "cancel while awaiting #%d also cancelled %r" % (k, wrong))
-            sim.check("cancels-awaited", pool[k].cancel_calls == cc[k] + 1, top_kind,
-                      lambda: "cancel while awaiting #%d: that Deferred received %d cancel() calls" % (k, pool[k].cancel_calls - cc[k]))
-            sim.check("cancel-outcome-observed", len(world.trace) > mark and world.trace[mark][:2] == ("resumed", k), top_kind,
-                      lambda: "cancelled await #%d was not observed by the program; log tail %r" % (k, world.trace[-3:]))
+            verdict.check("cancels-awaited", calls(k) == cc[k] + 1, wit,
+                      lambda: "cancel while awaiting #%d: that Deferred received %d cancel() calls" % (k, calls(k) - cc[k]))
+            if refused:
+                verdict.check("no-spurious-resume", len(world.trace) == mark, wit,
+                          lambda: "the canceller of #%d raised, yet the program advanced: %r" % (k, world.trace[mark:mark + 3]))
+            else:
+                verdict.check("cancel-outcome-observed", len(world.trace) > mark and world.trace[mark][:2] == ("resumed", k), wit,
+                          lambda: "cancelled await #%d was not observed by the program; log tail %r" % (k, world.trace[-3:]))
         sim.state((top_kind, min(world.nawaits, 12), len(fired), op))
+
+    # the returned Deferred carries the function's return value or uncaught exception: there is none before the function's end
+    verdict.check("fires-only-when-function-ends", world.ended(), top_kind,
+              lambda: "the returned Deferred fired while the function had not run to its end; log tail %r" % (world.trace[-3:],))
 
     # ---- synchronous reference over the effective outcomes
     sworld = SyncWorld(effective, npool)
@@ -710,16 +921,16 @@ def run(sim):
     div = next((i for i in range(n) if world.trace[i] != sworld.trace[i]), None)
     if div is None and len(world.trace) != len(sworld.trace):
         div = n
-    sim.check("observations-equal", div is None, top_kind,
+    verdict.check("observations-equal", div is None, top_kind,
               lambda: "first divergence at log entry %d: real %r reference %r" % (
                   div, world.trace[div:div + 2], sworld.trace[div:div + 2]))
-    sim.check("outcome-equal", got == expected, top_kind, "returned Deferred fired with %r, synchronous reference gives %r" % (got, expected))
+    verdict.check("outcome-equal", got == expected, top_kind, "returned Deferred fired with %r, synchronous reference gives %r" % (got, expected))
     # nothing fires the returned Deferred again
     for k in range(npool):
         if k not in fired:
-            with Escape(sim, "fire-raised", "after-the-end"):
+            with Escape(verdict, "fire-raised", "after-the-end"):
                 fire(k)
-    sim.check("fires-once", len(results) == 1, top_kind, "returned Deferred's callback ran %d times" % len(results))
+    verdict.check("fires-once", len(results) == 1, top_kind, "returned Deferred's callback ran %d times" % len(results))
     for d in pool:
         d.addErrback(lambda f: None)
     if bare_w:
@@ -756,4 +967,24 @@ MUTANTS = [
     "defer.py _inlineCallbacks: catch-all `except BaseException` -> `except Exception`: CAUGHT (fires-when-function-ends / start-raised)",
     "defer.py _inlineCallbacks: a Failure whose value is not an Exception is sent into the generator as a value: CAUGHT (observations-equal)",
     "defer.py _inlineCallbacks: `except SystemExit: status.deferred.callback(None)` (sys.exit() treated as a clean return): CAUGHT (outcome-equal / observations-equal)",
+    # round 6: cancel() issued from inside the running program / from inside the awaited Deferred's callback; caller pauses the returned Deferred
+    "defer.py _inlineCallbacks: status.deferred read once per call, before the loop (seeded C05-r6a): CAUGHT (suspended-on-unfired:gen / :coro) - the "
+    "replacement Deferred installed by a cancel() that arrives while this very call is on the stack never fires; survived before (every cancel() "
+    "came from the scheduler, with no _inlineCallbacks frame on the stack)",
+    "defer.py Deferred.__await__: `self.result = None` before handing the result over (seeded C05-r6b): NOT CAUGHT, deliberately - visible only to a "
+    "second consumer of an already awaited Deferred, which the statement does not cover (see ASSUMPTIONS)",
+    "KNOWN FINDING (unchanged tree, not repaired, listed in known_findings.json; reached in a CANCEL_WHILE_RETURNED_PAUSED_P = 0.03 share of the runs, signature family "
+    "C05:cancel-while-returned-paused:*) it = f(); it.pause(); it.cancel(): the awaited "
+    "Deferred is NOT cancelled (cancel-while-returned-paused:cancels-awaited:*) because _addCancelCallbackToDeferred hands the work to an errback of `it`, which a "
+    "paused Deferred does not run; if the awaited Deferred then fires and the function ends, _inlineCallbacks raises AlreadyCalledError into the "
+    "awaited Deferred's chain (status.deferred is still `it`, already errbacked with the internal marker), and after it.unpause() `it` waits for a "
+    "replacement that never fires.  Candidate fix: create the replacement, set status.deferred and call status.waitingOn.cancel() in "
+    "_addCancelCallbackToDeferred itself, the errback only trapping the marker and returning the replacement (check passes with it when the cancel "
+    "while paused is the first cancel; a SECOND cancel() while paused is still lost, because Deferred.cancel() of a called, paused Deferred whose "
+    "result is the unprocessed marker does nothing)",
+    "GENUINE DEFECT, REPAIRED in /repo by 99d1188 (found with RAISING_CANCELLER_P > 0, now 0.4) the awaited Deferred's canceller raises: the exception left "
+    "_handleCancelInlineCallbacks and becomes at once the result of the returned Deferred, while the function goes on waiting "
+    "(fires-only-when-function-ends:*, no-spurious-resume:*+canceller-raises for a nested function); the function's eventual outcome goes to the "
+    "orphaned replacement Deferred.  Repair: contained as DeferredList.cancel does (try: awaited.cancel() except BaseException: "
+    "log.failure(...)); the check passes on the repaired tree with the family on",
 ]
